@@ -919,7 +919,9 @@ evrpc_reply_done(struct evhttp_request *req, void *arg)
 	/* http request is being freed by underlying layer */
 
 error:
-	evrpc_request_wrapper_free(ctx);
+	/* we could not set up the hook meta data: complete the RPC with an
+	 * error instead of dropping it silently. */
+	evrpc_reply_done_closure(ctx, EVRPC_TERMINATE);
 }
 
 static void
